@@ -115,6 +115,11 @@ def check_global_seeded(ctx, res: Result, dotted: str, seed_param="seed", rule="
             forwards.append(cf)
     own = draws_in(ctx, fi)
     if not seeds and not forwards:
+        # handed to something that was not resolved (a seeder object out of a table, a callable parameter): not decided
+        handed = [n for n in walk_no_nested(fi.node) if isinstance(n, ast.Call) and any(isinstance(x, ast.Name) and x.id == seed_param for a_ in list(n.args) + [k.value for k in n.keywords] for x in ast.walk(a_))]
+        if handed:
+            res.unknown(rule, f, norm(handed[0])[:100], "seeding", f"`{seed_param}` is handed to a callable that was not resolved to a seeding call", loc(fi, handed[0]))
+            return
         res.violation(rule, f, f"random.seed({seed_param})", "seeding", f"the `{seed_param}` parameter never reaches a random generator: equal seeds give different results", loc(fi, fi.node))
         return
     seeded_mods = {m for _, m in seeds}
